@@ -186,6 +186,8 @@ func oneFactorLayouts() []gen.Layout {
 	mod(func(l *gen.Layout) { l.EmptyDash = true; l.Multi = true })
 	mod(func(l *gen.Layout) { l.BlockInAnn = true })
 	mod(func(l *gen.Layout) { l.BlockInAnn = true; l.NL = "\r\n" })
+	mod(func(l *gen.Layout) { l.EmptyCmt = true })
+	mod(func(l *gen.Layout) { l.EmptyCmt = true; l.EmptyPad = true; l.Multi = true })
 	mod(func(l *gen.Layout) { l.NoteBelow = true })
 	mod(func(l *gen.Layout) { l.NoteBelow = true; l.Multi = true; l.NL = "\r\n" })
 	mod(func(l *gen.Layout) { l.NoteBelow = true; l.NL = "\r"; l.GapTab = true })
